@@ -240,7 +240,9 @@ def fam_cli_uclchem(rng, idx, with_binding, repl="full"):
     model = rng.choice(["rr07", "rr07x"])
     if model == "rr07":
         grain = [ln for ln in grain if "THERM" not in ln.split(",")[:3]]
-    pick = rng.sample(gas, min(len(gas), rng.randint(4, 10))) + rng.sample(grain, min(len(grain), rng.randint(2, 5)))
+    core = [ln for ln in grain if ln.split(",")[0] in ("CO", "#CO") and ln.split(",")[1] in ("FREEZE", "DESCR", "DEUVCR", "DESOH2")]
+    rest = [ln for ln in grain if ln not in core]
+    pick = rng.sample(gas, min(len(gas), rng.randint(4, 10))) + core + rng.sample(rest, min(len(rest), rng.randint(1, 4)))
     net = {"elements": list(UCL_ELEMENTS), "pseudo_elements": ["CR", "CRP", "PHOTON", "CRPHOT"], "grain_model": model}
     table = {"full": dict(UCL_REPLACEMENT), "none": {}, "partial": {"HE": "He"}}[repl]
     cli = {"files": ["reactions.ucl"], "formats": ["uclchem"], "replacement": table}
@@ -296,21 +298,29 @@ def fam_api_native_grain(rng, idx, gprefix):
         net["species_kwargs"] = {"surface_prefix": "G"}
     steps = [{"s": "new"}]
     files = {}
+
+    def coef(R, P):
+        # the same reaction has the same coefficients in every description of this family
+        return round((sum(map(ord, "".join(R + P))) % 89 + 1) * 1.1e-11, 13)
+
     if gprefix or rng.random() < 0.4:
         for i, (R, P, t) in enumerate(reacs):
             pseudo = [x for x in R if x in ("CR", "Photon")]
             steps.append({"s": "add_inst", "R": [x for x in R if x not in pseudo], "P": P, "pseudo": pseudo,
-                          "alpha": round((i + 1) * 1.1e-10, 13), "rtype": t, "idx": i, "tmin": 10.0, "tmax": 300.0 if i % 2 else -1.0})
+                          "alpha": coef(R, P), "rtype": t, "idx": -1, "tmin": 10.0, "tmax": -1.0})
     else:
         lines = []
         for i, (R, P, t) in enumerate(reacs):
             Rf = (R + [""] * 3)[:3]
             Pf = (P + [""] * 5)[:5]
-            lines.append(",".join([str(i)] + Rf + Pf + [repr(round((i + 1) * 1.1e-10, 13)), "0.0", "0.0", "10.0", "300.0", str(t), "sim"]))
+            lines.append(",".join(["-1"] + Rf + Pf + [repr(coef(R, P)), "0.0", "0.0", "10.0", "-1.0", str(t), "sim"]))
         files["net.naunet"] = "\n".join(lines) + "\n"
         steps.append({"s": "add_file", "file": "net.naunet", "fmt": "naunet"})
     if rng.random() < 0.3 and any(pre + "CO" in R + P for R, P, _ in reacs):
         net["ode_modifier"] = {pre + "CO": {"factors": ["-1.0e-15"], "reactants": [[pre + "CO"]]}}
+    if rng.random() < 0.4:
+        # binding energies set on this network's own species objects (instance state, not a global table)
+        steps.append({"s": "set_eb", "values": {pre + "CO": float(rng.choice([855, 1300, 1575])), pre + "H2O": float(rng.choice([4800, 5700]))}})
     steps += api_tail(rng, len(reacs), can_edit=not net.get("ode_modifier"))
     tag = "gprefix" if gprefix else "hash"
     return {"id": f"api-grain-{tag}-{idx}", "family": f"api-grain-{tag}", "entry": "api", "name": "simproj", "files": files,
